@@ -108,6 +108,76 @@ theorem deserialize_injective (t1 t2 p : Bytes) (q : Bytes)
     (h2 : deserialize Gen.Token.deserializeSep t2 = some (p, q)) : t1 = t2 := by
   rw [(deserialize_sound _ _ _ h1).1, (deserialize_sound _ _ _ h2).1]
 
+/-! ## ReadChanges token gate: a token is bound to the type filter it was issued for -/
+
+/-- The guards of `ReadChangesQuery.Execute` between decoding the token and calling the backend, as read from
+the source: undecodable → invalid token, empty → start, undeserializable → invalid token, other type filter →
+mismatch; the position handed to the backend is the deserialized ulid, the filter the request's type, and the
+next token is serialized from the backend's position and the request's type. -/
+theorem tie_read_changes_gate :
+    Gen.Token.readChangesGate =
+      ["err != nil => serverErrors.ErrInvalidContinuationToken",
+       "req.GetStartTime() != nil => -",
+       "token != \"\" => -",
+       "err != nil => serverErrors.ErrInvalidContinuationToken",
+       "objType != req.GetType() => serverErrors.ErrMismatchObjectType",
+       "!startTime.IsZero() => -",
+       "ulidErr != nil => serverErrors.HandleError(ulidErr.Error(), storage.ErrInvalidStartTime)"]
+    ∧ Gen.Token.readChangesCodecCalls =
+      ["decodedContToken,err = q.encoder.Decode(req.GetContinuationToken())",
+       "fromUlid,objType,err = q.tokenSerializer.Deserialize(token)",
+       "contToken,err = q.tokenSerializer.Serialize(contUlid, req.GetType())",
+       "encodedContToken,err = q.encoder.Encode(contToken)"]
+    ∧ Gen.Token.readChangesBackendArgs = ["from: fromUlid", "ObjectType: req.GetType()"] := by
+  decide
+
+/-- **A token issued for `(u, T)` presented with filter `T'`** resumes exactly at `u` when `T' = T` and is
+rejected as a mismatch otherwise — for every non-empty separator-free position and all type filters. -/
+theorem rcGate_issued (u T T' tok : Bytes) (hne : u ≠ []) (hsep : (124 : UInt8) ∉ u)
+    (hi : rcIssue Gen.Token.serializeSep u T = some tok) :
+    rcGate Gen.Token.deserializeSep tok T' = if T = T' then .resume u else .mismatch := by
+  have hr := serializer_roundtrip u T hne hsep
+  simp only [rcIssue, hne, if_false] at hi
+  rw [hi] at hr
+  simp only [Option.bind_some] at hr
+  have htok : tok ≠ [] := by
+    intro e; subst e
+    simp [serialize, hne] at hi
+  unfold rcGate
+  simp only [htok, if_false, hr]
+  by_cases h : T = T' <;> simp [h]
+
+/-- **No other position**: whenever the gate lets a token through, the token literally spells out the position
+the backend is asked to resume from and the request's own type filter; a token is never read as a position
+or a filter other than the one written in it. -/
+theorem rcGate_resume_sound (tok T u : Bytes) (h : rcGate Gen.Token.deserializeSep tok T = .resume u) :
+    tok = u ++ Gen.Token.deserializeSep ++ T ∧ u ≠ [] ∧ (124 : UInt8) ∉ u := by
+  unfold rcGate at h
+  split at h
+  · simp at h
+  · split at h
+    · simp at h
+    · rename_i u' t' hd
+      split at h
+      · simp at h
+      · rename_i ht
+        simp only [ne_eq, Decidable.not_not] at ht
+        simp only [Gate.resume.injEq] at h
+        subst h; subst ht
+        exact deserialize_sound _ _ _ hd
+
+/-- Issuing never produces a token for "no further position", and what it produces for a real position is
+accepted by the gate under the same filter (page chaining). -/
+theorem rcIssue_chain (u T tok : Bytes) (hne : u ≠ []) (hsep : (124 : UInt8) ∉ u)
+    (hi : rcIssue Gen.Token.serializeSep u T = some tok) :
+    rcGate Gen.Token.deserializeSep tok T = .resume u := by
+  simpa using rcGate_issued u T T tok hne hsep hi
+
+example : rcGate Gen.Token.deserializeSep [48, 49, 124, 100] [100] = .resume [48, 49]
+    ∧ rcGate Gen.Token.deserializeSep [48, 49, 124, 100] [101] = .mismatch
+    ∧ rcGate Gen.Token.deserializeSep [124, 100] [100] = .invalid
+    ∧ rcGate Gen.Token.deserializeSep [] [100] = .start := by decide
+
 /-! ## base64 (URL alphabet, padded) -/
 
 theorem decChar_encChar_fin : ∀ i : Fin 64, decChar (encChar i.val) = some i.val := by decide
